@@ -423,8 +423,8 @@ def bridged(line):
     if o == 'insr':
         return len(t) > 4 and t[3] in ('fw', 'ra') and t[4] != '-'
     if o in ('asr', 'app'):
-        return len(t) > 2 and t[2] in ('fw', 'ra')
-    return False
+        return len(t) > 2     # every iterator kind (single-pass: SOp.assignInput / SOp.appendInput)
+    return False              # (a single-pass insert at end () is bridged too, but that depends on the state: svcover counts it)
 
 
 # --------------------------------------------------------------------------------------------------
